@@ -286,6 +286,9 @@ class OrderRule(H.CallbackRule):
                 alg = it.load(st, jwt.loc, 'alg')
                 key = it.load(st, jwt.loc, 'key')
             sk = st.ts.get('sk')
+            if getattr(self, 'cb_configured', False) and not st.ts.get('cb'):
+                self.violations.append(('callback-skipped: a callback is configured but %s is reached on a path that never called it '
+                                        '(the key and algorithm it would select are not used)' % self.sink, node_loc(node)))
             if sk is None:
                 self.violations.append(('no __setkey_check between the callback and %s' % self.sink, node_loc(node)))
             elif sk != (vkey(alg), vkey(key)):
@@ -318,6 +321,7 @@ def check_order(chk, prog, env):
         for cb in (False, True):
             for keymode in ('none', 'sym'):
                 rule = OrderRule(env, sink, sink)
+                rule.cb_configured = cb
                 hooks = H.std_hooks(env, extra={sink: lambda it, st, args, node: [(st, args[0] if sink == 'jwt_verify_complete' else Int(0))],
                                                 'jwt_encode_str': lambda it, st, args, node: [(st, NULL)]})
                 it = Interp(prog, unit, model=model, rule=rule, hooks=hooks, budget=300000)
@@ -372,6 +376,12 @@ def run(chk, prog, tier):
     check_names(chk, prog, env, thorough=(tier == 'thorough'))
     check_gate(chk, prog, env)
     check_order(chk, prog, env)
+    # the key's own alg attribute (what "the key's alg" of the tables above is) and the compare primitive behind the name tables
+    from props import c08, c01
+    from model import build_model
+    model = build_model()
+    chk.guard('key alg attribute', c08.check_key_alg_attribute, chk, prog, env, model, rulename='C02.key-alg')
+    chk.guard('exact compare', c01.check_exact_compare, chk, prog, model, tier)
     chk.assumptions += ['asymmetric family mismatches among EC/RSA/OKP keys are refused by the providers and the crypto libraries '
                         '(trusted base); the generic layer is only required to separate oct from non-oct keys (the union discriminant), '
                         'because the unedited test-suite requires ES256 with an OKP key to fail inside the provider']
